@@ -14,6 +14,12 @@ def make_replay(pid, failure, outdir):
            "verifier_output": failure.get("rendered", ""), "source_text": failure.get("text"),
            "input": None, "expected": None, "observed": None, "how_to_run": "./check --replay " + path}
     found = False
+    if failure.get("concrete"):
+        doc.update({k: v for k, v in failure["concrete"].items() if k != "obligation"})
+        found = True
+        with open(path, "w") as f:
+            json.dump(doc, f, indent=1, default=str)
+        return path, found
     try:
         unit = __import__(failure.get("unit", ""))
         if hasattr(unit, "replay") and not os.environ.get("VERIF_NO_REPLAY"):
